@@ -321,10 +321,14 @@ def run_workload(name, seed, n, wide=False, replay=None, extra_args=(), timeout=
                     if len(st["samples"]) < 3:
                         st["samples"].append(json.loads(cline))
             if not (v["agree"] and v["prop"]):
-                if len(st["failures"]) < 50:
-                    st["failures"].append({
-                        "kind": "property" if not v["prop"] else "disagreement",
-                        "case": cline.strip(), "verdict": v})
+                kind = "property" if not v["prop"] else "disagreement"
+                # separate caps, so a flood of disagreements cannot hide the failing inputs (and vice versa);
+                # within property failures keep at most 5 per signature so every distinct sig is seen
+                sig = v.get("sig", "")
+                nkind = sum(1 for f in st["failures"] if f["kind"] == kind)
+                nsig = sum(1 for f in st["failures"] if f["kind"] == kind and f["verdict"].get("sig", "") == sig)
+                if nkind < 200 and nsig < 5:
+                    st["failures"].append({"kind": kind, "case": cline.strip(), "verdict": v})
     st["distinct_nontrivial"] = len(seen)
     st["tags"] = dict(sorted(st["tags"].items()))
     st["wall_s"] = round(time.time() - t0, 2)
